@@ -6,6 +6,7 @@ import (
 	"go/token"
 	"go/types"
 	"math/big"
+	"runtime"
 
 	"gosmt/internal/term"
 
@@ -300,6 +301,15 @@ func (p *Path) callValue(fnv Value, args []Value, caller *frame, site ssa.CallIn
 			defer func() {
 				if r := recover(); r != nil {
 					if pe, isPE := r.(*pathEnd); isPE && pe.kind == "unsupported" {
+						ok = false
+						return
+					}
+					if _, isRT := r.(runtime.Error); isRT {
+						// an operation on an opaque init-time value the interpreter has no case for
+						ok = false
+						return
+					}
+					if _, isGP := r.(*goPanic); isGP {
 						ok = false
 						return
 					}
